@@ -16,6 +16,9 @@ pub(crate) fn last_pos(m: &ZXMixer) -> usize {
     m.last_pos
 }
 pub(crate) fn noop_process(_m: &mut ZXMixer, _t: f64) {}
+/// frame-end padding of the audio queue (VecDeque growth is very expensive to execute symbolically);
+/// only for harnesses in which audio is not the subject
+pub(crate) fn noop_new_frame(_m: &mut ZXMixer) {}
 
 #[cfg(not(feature = "ay"))]
 mod c19 {
@@ -36,8 +39,14 @@ mod c19 {
     fn small_mixer(rate: usize) -> (ZXMixer, usize) {
         let mut m = mk(rate);
         let s = rate / 50;
-        let vol: f64 = kani::any();
-        kani::assume(vol >= 0.0 && vol <= 1.275);
+        // volume from a literal class: with a symbolic volume the solver has to prove two f64 multiplier
+        // circuits equivalent (sample = level x volume on both sides), which does not terminate
+        let vol: f64 = match kani::any::<u8>() & 3 {
+            0 => 0.0,
+            1 => 0.5,
+            2 => 1.0,
+            _ => 1.275,
+        };
         m.volume(vol);
         let use_beeper: bool = kani::any();
         m.use_beeper = use_beeper;
@@ -70,7 +79,7 @@ mod c19 {
     // @features sound
     // @timeout 600
     // @fn ZXMixer::process; ZXMixer::gen_sample; ZXMixer::samples_per_frame; ZXMixer::sample_count_for_frame_fraction; ZXBeeper::gen_sample; SoundSample::mul_eq; SoundSample::into_f32; ZXMixer::volume
-    // @sym sample rate from {50, 149, 200} Hz (samples/frame 1, 2, 4; literals), master volume in [0, 1.275] (= sound_volume 0..255 / 200), beeper on/off, speaker and MIC levels, case 1 of 7: sample rate 50 Hz (1 samples/frame), 0 samples queued, cursor 0 (first sample of a 1-sample frame); frame fraction any f64 in [0,4]
+    // @sym sample rate from {50, 149, 200} Hz (samples/frame 1, 2, 4; literals), master volume from {0, 0.5, 1.0, 1.275} (sound_volume 0, 100, 200, 255; a symbolic f64 volume makes the query a multiplier-equivalence problem), beeper on/off, speaker and MIC levels, case 1 of 7: sample rate 50 Hz (1 samples/frame), 0 samples queued, cursor 0 (first sample of a 1-sample frame); frame fraction any f64 in [0,4]
     // @assert one mixer step: if the queue already holds a frame's worth nothing is added; otherwise exactly max(0, pos - last_pos) samples are queued and the cursor moves to pos; every queued sample is (left == right) volume*(0.5*speaker + 0.1*MIC) (0 with the beeper disabled), finite, >= 0 and <= 0.6*volume; the queue never reaches two frames' worth (invariant len <= 2*spf-1 preserved); a drained frame keeps len == cursor
     // @bound samples/frame <= 4 so the push loop unrolls (unwind 9); real rates are covered by the c19_cursor_* arithmetic queries
     // @outside rates >= 8000 in this step harness; AY contribution (float DSP)
@@ -86,7 +95,7 @@ mod c19 {
     // @features sound
     // @timeout 600
     // @fn ZXMixer::process; ZXMixer::gen_sample; ZXMixer::samples_per_frame; ZXMixer::sample_count_for_frame_fraction; ZXBeeper::gen_sample; SoundSample::mul_eq; SoundSample::into_f32; ZXMixer::volume
-    // @sym sample rate from {50, 149, 200} Hz (samples/frame 1, 2, 4; literals), master volume in [0, 1.275] (= sound_volume 0..255 / 200), beeper on/off, speaker and MIC levels, case 2 of 7: sample rate 200 Hz (4 samples/frame), 0 samples queued, cursor 0 (drained frame start); frame fraction any f64 in [0,4]
+    // @sym sample rate from {50, 149, 200} Hz (samples/frame 1, 2, 4; literals), master volume from {0, 0.5, 1.0, 1.275} (sound_volume 0, 100, 200, 255; a symbolic f64 volume makes the query a multiplier-equivalence problem), beeper on/off, speaker and MIC levels, case 2 of 7: sample rate 200 Hz (4 samples/frame), 0 samples queued, cursor 0 (drained frame start); frame fraction any f64 in [0,4]
     // @assert one mixer step: if the queue already holds a frame's worth nothing is added; otherwise exactly max(0, pos - last_pos) samples are queued and the cursor moves to pos; every queued sample is (left == right) volume*(0.5*speaker + 0.1*MIC) (0 with the beeper disabled), finite, >= 0 and <= 0.6*volume; the queue never reaches two frames' worth (invariant len <= 2*spf-1 preserved); a drained frame keeps len == cursor
     // @bound samples/frame <= 4 so the push loop unrolls (unwind 9); real rates are covered by the c19_cursor_* arithmetic queries
     // @outside rates >= 8000 in this step harness; AY contribution (float DSP)
@@ -102,7 +111,7 @@ mod c19 {
     // @features sound
     // @timeout 600
     // @fn ZXMixer::process; ZXMixer::gen_sample; ZXMixer::samples_per_frame; ZXMixer::sample_count_for_frame_fraction; ZXBeeper::gen_sample; SoundSample::mul_eq; SoundSample::into_f32; ZXMixer::volume
-    // @sym sample rate from {50, 149, 200} Hz (samples/frame 1, 2, 4; literals), master volume in [0, 1.275] (= sound_volume 0..255 / 200), beeper on/off, speaker and MIC levels, case 3 of 7: sample rate 200 Hz (4 samples/frame), 3 samples queued, cursor 3 (drained frame, last sample); frame fraction any f64 in [0,4]
+    // @sym sample rate from {50, 149, 200} Hz (samples/frame 1, 2, 4; literals), master volume from {0, 0.5, 1.0, 1.275} (sound_volume 0, 100, 200, 255; a symbolic f64 volume makes the query a multiplier-equivalence problem), beeper on/off, speaker and MIC levels, case 3 of 7: sample rate 200 Hz (4 samples/frame), 3 samples queued, cursor 3 (drained frame, last sample); frame fraction any f64 in [0,4]
     // @assert one mixer step: if the queue already holds a frame's worth nothing is added; otherwise exactly max(0, pos - last_pos) samples are queued and the cursor moves to pos; every queued sample is (left == right) volume*(0.5*speaker + 0.1*MIC) (0 with the beeper disabled), finite, >= 0 and <= 0.6*volume; the queue never reaches two frames' worth (invariant len <= 2*spf-1 preserved); a drained frame keeps len == cursor
     // @bound samples/frame <= 4 so the push loop unrolls (unwind 9); real rates are covered by the c19_cursor_* arithmetic queries
     // @outside rates >= 8000 in this step harness; AY contribution (float DSP)
@@ -118,7 +127,7 @@ mod c19 {
     // @features sound
     // @timeout 600
     // @fn ZXMixer::process; ZXMixer::gen_sample; ZXMixer::samples_per_frame; ZXMixer::sample_count_for_frame_fraction; ZXBeeper::gen_sample; SoundSample::mul_eq; SoundSample::into_f32; ZXMixer::volume
-    // @sym sample rate from {50, 149, 200} Hz (samples/frame 1, 2, 4; literals), master volume in [0, 1.275] (= sound_volume 0..255 / 200), beeper on/off, speaker and MIC levels, case 4 of 7: sample rate 200 Hz (4 samples/frame), 4 samples queued, cursor 1 (full queue: nothing may be added); frame fraction any f64 in [0,4]
+    // @sym sample rate from {50, 149, 200} Hz (samples/frame 1, 2, 4; literals), master volume from {0, 0.5, 1.0, 1.275} (sound_volume 0, 100, 200, 255; a symbolic f64 volume makes the query a multiplier-equivalence problem), beeper on/off, speaker and MIC levels, case 4 of 7: sample rate 200 Hz (4 samples/frame), 4 samples queued, cursor 1 (full queue: nothing may be added); frame fraction any f64 in [0,4]
     // @assert one mixer step: if the queue already holds a frame's worth nothing is added; otherwise exactly max(0, pos - last_pos) samples are queued and the cursor moves to pos; every queued sample is (left == right) volume*(0.5*speaker + 0.1*MIC) (0 with the beeper disabled), finite, >= 0 and <= 0.6*volume; the queue never reaches two frames' worth (invariant len <= 2*spf-1 preserved); a drained frame keeps len == cursor
     // @bound samples/frame <= 4 so the push loop unrolls (unwind 9); real rates are covered by the c19_cursor_* arithmetic queries
     // @outside rates >= 8000 in this step harness; AY contribution (float DSP)
@@ -134,7 +143,7 @@ mod c19 {
     // @features sound
     // @timeout 600
     // @fn ZXMixer::process; ZXMixer::gen_sample; ZXMixer::samples_per_frame; ZXMixer::sample_count_for_frame_fraction; ZXBeeper::gen_sample; SoundSample::mul_eq; SoundSample::into_f32; ZXMixer::volume
-    // @sym sample rate from {50, 149, 200} Hz (samples/frame 1, 2, 4; literals), master volume in [0, 1.275] (= sound_volume 0..255 / 200), beeper on/off, speaker and MIC levels, case 5 of 7: sample rate 200 Hz (4 samples/frame), 7 samples queued, cursor 0 (worst-case undrained queue); frame fraction any f64 in [0,4]
+    // @sym sample rate from {50, 149, 200} Hz (samples/frame 1, 2, 4; literals), master volume from {0, 0.5, 1.0, 1.275} (sound_volume 0, 100, 200, 255; a symbolic f64 volume makes the query a multiplier-equivalence problem), beeper on/off, speaker and MIC levels, case 5 of 7: sample rate 200 Hz (4 samples/frame), 7 samples queued, cursor 0 (worst-case undrained queue); frame fraction any f64 in [0,4]
     // @assert one mixer step: if the queue already holds a frame's worth nothing is added; otherwise exactly max(0, pos - last_pos) samples are queued and the cursor moves to pos; every queued sample is (left == right) volume*(0.5*speaker + 0.1*MIC) (0 with the beeper disabled), finite, >= 0 and <= 0.6*volume; the queue never reaches two frames' worth (invariant len <= 2*spf-1 preserved); a drained frame keeps len == cursor
     // @bound samples/frame <= 4 so the push loop unrolls (unwind 9); real rates are covered by the c19_cursor_* arithmetic queries
     // @outside rates >= 8000 in this step harness; AY contribution (float DSP)
@@ -150,7 +159,7 @@ mod c19 {
     // @features sound
     // @timeout 600
     // @fn ZXMixer::process; ZXMixer::gen_sample; ZXMixer::samples_per_frame; ZXMixer::sample_count_for_frame_fraction; ZXBeeper::gen_sample; SoundSample::mul_eq; SoundSample::into_f32; ZXMixer::volume
-    // @sym sample rate from {50, 149, 200} Hz (samples/frame 1, 2, 4; literals), master volume in [0, 1.275] (= sound_volume 0..255 / 200), beeper on/off, speaker and MIC levels, case 6 of 7: sample rate 149 Hz (2 samples/frame), 1 samples queued, cursor 0 (partially drained host); frame fraction any f64 in [0,4]
+    // @sym sample rate from {50, 149, 200} Hz (samples/frame 1, 2, 4; literals), master volume from {0, 0.5, 1.0, 1.275} (sound_volume 0, 100, 200, 255; a symbolic f64 volume makes the query a multiplier-equivalence problem), beeper on/off, speaker and MIC levels, case 6 of 7: sample rate 149 Hz (2 samples/frame), 1 samples queued, cursor 0 (partially drained host); frame fraction any f64 in [0,4]
     // @assert one mixer step: if the queue already holds a frame's worth nothing is added; otherwise exactly max(0, pos - last_pos) samples are queued and the cursor moves to pos; every queued sample is (left == right) volume*(0.5*speaker + 0.1*MIC) (0 with the beeper disabled), finite, >= 0 and <= 0.6*volume; the queue never reaches two frames' worth (invariant len <= 2*spf-1 preserved); a drained frame keeps len == cursor
     // @bound samples/frame <= 4 so the push loop unrolls (unwind 9); real rates are covered by the c19_cursor_* arithmetic queries
     // @outside rates >= 8000 in this step harness; AY contribution (float DSP)
@@ -166,7 +175,7 @@ mod c19 {
     // @features sound
     // @timeout 600
     // @fn ZXMixer::process; ZXMixer::gen_sample; ZXMixer::samples_per_frame; ZXMixer::sample_count_for_frame_fraction; ZXBeeper::gen_sample; SoundSample::mul_eq; SoundSample::into_f32; ZXMixer::volume
-    // @sym sample rate from {50, 149, 200} Hz (samples/frame 1, 2, 4; literals), master volume in [0, 1.275] (= sound_volume 0..255 / 200), beeper on/off, speaker and MIC levels, case 7 of 7: sample rate 149 Hz (2 samples/frame), 3 samples queued, cursor 2 (queue above one frame); frame fraction any f64 in [0,4]
+    // @sym sample rate from {50, 149, 200} Hz (samples/frame 1, 2, 4; literals), master volume from {0, 0.5, 1.0, 1.275} (sound_volume 0, 100, 200, 255; a symbolic f64 volume makes the query a multiplier-equivalence problem), beeper on/off, speaker and MIC levels, case 7 of 7: sample rate 149 Hz (2 samples/frame), 3 samples queued, cursor 2 (queue above one frame); frame fraction any f64 in [0,4]
     // @assert one mixer step: if the queue already holds a frame's worth nothing is added; otherwise exactly max(0, pos - last_pos) samples are queued and the cursor moves to pos; every queued sample is (left == right) volume*(0.5*speaker + 0.1*MIC) (0 with the beeper disabled), finite, >= 0 and <= 0.6*volume; the queue never reaches two frames' worth (invariant len <= 2*spf-1 preserved); a drained frame keeps len == cursor
     // @bound samples/frame <= 4 so the push loop unrolls (unwind 9); real rates are covered by the c19_cursor_* arithmetic queries
     // @outside rates >= 8000 in this step harness; AY contribution (float DSP)
